@@ -837,6 +837,10 @@ class SV:
         return n1 == n2
 
     def _cmp(self, o, op):
+        if _is_float(o) and (o == float("inf") or o == float("-inf")):
+            # every real is below +inf and above -inf (a symbolic value stands for a finite real)
+            up = o > 0
+            return {"lt": up, "le": up, "gt": not up, "ge": not up, "eq": False, "ne": True}[op]
         o = SV.lift(o)
         if o is None:
             return NotImplemented
@@ -1053,6 +1057,9 @@ class LazySqrt:
     def _cmp(self, o, op):
         if isinstance(o, LazySqrt):
             return getattr(self.x, f"__{op}__")(o.x)
+        if _is_float(o) and (o == float("inf") or o == float("-inf")):
+            up = o > 0
+            return {"lt": up, "le": up, "gt": not up, "ge": not up, "eq": False, "ne": True}[op]
         c = _const(o)
         if c is not None:
             if c < 0:
